@@ -9,9 +9,19 @@ func H_C11_marshal() {
 	if len(b) == 7 {
 		u := uint32(int32(y))
 		vAssert("layout", b[0] == 1 && b[1] == byte(u>>24) && b[2] == byte(u>>16) && b[3] == byte(u>>8) && b[4] == byte(u) && b[5] == byte(m) && b[6] == byte(dd))
-		var back Date
+		back := Date{year: vI32("prev.year"), month: vU8("prev.month"), day: vU8("prev.day")} // whatever the variable held before
 		uerr := back.UnmarshalBinary(b)
 		vAssert("roundtrip", uerr == nil && back.Equal(d) && back == d)
+		// "always": the caller owns the returned bytes; scribbling on them must not change what a later call yields
+		junk := vBytes("junk", 7)
+		copy(b, junk)
+		b2, err2 := d.MarshalBinary()
+		vAssert("second-call-unaffected-by-writes-to-the-first-result", err2 == nil && len(b2) == 7 &&
+			b2[0] == 1 && b2[1] == byte(u>>24) && b2[2] == byte(u>>16) && b2[3] == byte(u>>8) && b2[4] == byte(u) && b2[5] == byte(m) && b2[6] == byte(dd))
+		if len(b2) == 7 {
+			b2[0] = junk[1]
+			vAssert("first-result-not-shared-with-the-second", b[0] == junk[0])
+		}
 	}
 	vReach("negative-year", y < 0)
 	vReach("leap-day", m == 2 && dd == 29)
